@@ -117,7 +117,10 @@ FOREIGN_TAGS = ["svg", "math", "foreignObject", "desc", "title", "mi", "mo", "mn
 ATTR_SRC = [' id=x', ' class="a b"', " title='q'", ' href="http://e/x?a=1&b=2"', ' checked', ' disabled=disabled',
             ' type=hidden', ' encoding=text/html', ' color=red', ' xlink:href="#a"', ' xml:lang=en', ' A=1 a=2',
             ' style="color: red"', ' data-x="<>&"', " v='\"'", ' charset=utf-8', ' http-equiv=content-type content="text/html; charset=x"',
-            ' onclick="x"', ' definitionurl=x', ' x="&amp;&lt;"', ' src=javascript:1']
+            ' onclick="x"', ' definitionurl=x', ' x="&amp;&lt;"', ' src=javascript:1',
+            # values that stay unquoted in legacy/spec mode and contain an ampersand / look like references after one decoding
+            ' title=a&amp;b', ' href=&amp;#106;avascript:alert(1)', ' alt=&amp;', ' src=&amp;#x6a;avascript&amp;colon;1', ' y=&amp;amp;',
+            ' z=x&amp;copy', ' title=\u00c9COLE', ' alt=\u00dcber=1']
 TEXT_SRC = ["x", "hello world", " ", "\n", "  \t\n ", "&amp;", "&lt;b&gt;", "&notit;", "&#x41;", "&#0;", "&#x80;", "&bogus;", "&",
             "<", ">", "a &#32; b", "é", "\U0001F600", "\x00", "--", "]]>", "\x0c", "=\"'`",
             "\u00a0x", "y\u00a0", "\u2003", "&nbsp; z &nbsp;", "\u3000w\u000b", "\x1c"]
